@@ -16,7 +16,7 @@ RULE = ("vec.pardot cases, the executor re-run under `taskset -c <first k CPUs o
         "available at run time; recorded as worker_counts_exercised) (the worker count is num_cpus::get(), observed in-process and compared with k): for every k and every length 0..200 (exhaustive in "
         "(length, k)) a case on arbitrary f64 data and/or one on small-integer data whose partial sums are exact (both for lengths <= 64, "
         "alternating above in the quick tier; both everywhere in the thorough tier), plus seeded "
-        "longer lengths (201..3000); every case calls dot_f64 3 times (5 thorough), a share of them under spinning background "
+        "longer lengths (201..1200 quick, ..4000 thorough); every case calls dot_f64 3 times (5 thorough), a share of them under spinning background "
         "threads; distinct = distinct executor line x affinity; non-trivial = length >= 1")
 TRUSTED = ["Coq 8.16.1 kernel + vm_compute (primitive floats: bit-exact IEEE binary64)", "Flocq 4 (IEEE754.PrimFloat, BinarySingleNaN) and Coq's FloatAxioms for pardot_exact_float", "Rust executor /verif/harness (kind vec.pardot), `taskset`",
            "python driver: generators, exact Fraction reference, stream comparator (bitwise for this property)",
@@ -142,9 +142,9 @@ def generate(rng, tier):
                 sd = g.next() & M63
                 v, w = gen_data(1, n, sd)
                 cases.append(mk(k, v, w, reps, 0, True, "exact-sum-integers", seed=sd))
-        nlong = 12 if tier == "thorough" else 2
+        nlong = 20 if tier == "thorough" else 2
         for _ in range(nlong):
-            n = g.range(MAXLEN + 1, 3000 if tier == "thorough" else 1200)
+            n = g.range(MAXLEN + 1, 4000 if tier == "thorough" else 1200)
             ex = g.chance(1, 2)
             f = ival if ex else fval
             v = [f(g) for _ in range(n)]; w = [f(g) for _ in range(n)]
